@@ -212,6 +212,80 @@ theorem poisoned (st : St) (src : List Nat) (st' : St) (r : List Nat) (e : DErr)
 theorem encode_limit (f : Frame) : encode f = none ↔ f.payload.length > MAX_FRAME_SIZE := by
   unfold encode; split <;> simp_all
 
+/-! ### a sequence of frames encoded into ONE buffer, rejected ones included -/
+
+/-- **A rejected frame leaves the output buffer byte-for-byte unchanged** (and a frame is rejected
+exactly when its payload exceeds 1 MiB; an accepted one only appends). -/
+theorem encode_reject_leaves_buffer (dst : List Nat) (f : Frame) :
+    ((encodeInto dst f).1 = .error .dataTooBig ↔ f.payload.length > MAX_FRAME_SIZE) ∧
+    ((encodeInto dst f).1 = .error .dataTooBig → (encodeInto dst f).2 = dst) ∧
+    ((encodeInto dst f).1 = .ok () → ∃ bs, encode f = some bs ∧ (encodeInto dst f).2 = dst ++ bs) := by
+  unfold encodeInto
+  cases he : encode f with
+  | none => exact ⟨⟨fun _ => (encode_limit f).1 he, fun _ => rfl⟩, fun _ => rfl, by simp⟩
+  | some bs =>
+    refine ⟨⟨by simp, fun h => ?_⟩, by simp, fun _ => ⟨bs, rfl, rfl⟩⟩
+    have := (encode_limit f).2 h
+    rw [he] at this; cases this
+
+/-- the shared buffer after a sequence of `encode` calls is the old contents followed by the
+encodings of the accepted frames only, in order -/
+theorem encodeSeq_eq : ∀ (fs : List Frame) (dst : List Nat),
+    ∃ bs, encodeAll (accepted fs) = some bs ∧ encodeSeq dst fs = dst ++ bs := by
+  intro fs
+  induction fs with
+  | nil => intro dst; exact ⟨[], rfl, by simp [encodeSeq]⟩
+  | cons f fs ih =>
+    intro dst
+    simp only [encodeSeq, encodeInto]
+    cases he : encode f with
+    | none =>
+      have hbig := (encode_limit f).1 he
+      obtain ⟨bs, h1, h2⟩ := ih dst
+      refine ⟨bs, ?_, h2⟩
+      have : accepted (f :: fs) = accepted fs := by
+        unfold accepted
+        rw [List.filter_cons]
+        have : ¬ (f.payload.length ≤ MAX_FRAME_SIZE) := by omega
+        simp [this]
+      rw [this]; exact h1
+    | some a =>
+      have hsmall : f.payload.length ≤ MAX_FRAME_SIZE := (encode_isSome_iff f).1 (by simp [he])
+      obtain ⟨bs, h1, h2⟩ := ih (dst ++ a)
+      refine ⟨a ++ bs, ?_, by rw [h2, List.append_assoc]⟩
+      have : accepted (f :: fs) = f :: accepted fs := by
+        unfold accepted
+        rw [List.filter_cons]
+        simp [hsmall]
+      rw [this]
+      simp [encodeAll, he, h1]
+
+theorem accepted_mem {fs : List Frame} {f : Frame} (h : f ∈ accepted fs) : f ∈ fs :=
+  (List.mem_filter.1 h).1
+
+/-- **Decoding the stream of the accepted frames.**  Encode ANY list of frames one after the other
+into one (initially empty) buffer — frames above the limit are rejected and skipped — and feed that
+buffer to a fresh decoder under ANY split: it yields exactly the accepted frames, in order (each
+with the sender's role tag, i.e. mirrored by `into_local`), consumes everything and reports no
+error.  (Corollary of `roundtrip_split` and `encodeSeq_eq`.) -/
+theorem decode_stream_of_accepted (fs : List Frame) (hw : ∀ f ∈ fs, f.wire = true)
+    (cs : List (List Nat)) (hcs : cs.flatten = encodeSeq [] fs) :
+    feedMany .begin [] cs = (accepted fs, .begin, [], none) := by
+  obtain ⟨bs, h1, h2⟩ := encodeSeq_eq fs []
+  rw [List.nil_append] at h2
+  exact roundtrip_split (accepted fs) (fun f hf => hw f (accepted_mem hf)) bs h1 cs (by rw [hcs, h2])
+
+theorem cutChunks_flatten : ∀ (ns : List Nat) (buf : List Nat), (cutChunks buf ns).flatten = buf := by
+  intro ns
+  induction ns with
+  | nil => intro buf; simp [cutChunks]
+  | cons n ns ih => intro buf; simp [cutChunks, ih, List.take_append_drop]
+
+/-- the driver's `decs` op on the model: whatever the split sizes -/
+theorem decs_model (fs : List Frame) (hw : ∀ f ∈ fs, f.wire = true) (ns : List Nat) :
+    feedMany .begin [] (cutChunks (encodeSeq [] fs) ns) = (accepted fs, .begin, [], none) :=
+  decode_stream_of_accepted fs hw _ (cutChunks_flatten ns _)
+
 /-! ### the Spec accepts the model -/
 
 theorem spec_enc_model (f : Frame) : specEnc f (encode f) = true := by
@@ -321,4 +395,8 @@ end C25
 #print axioms C25.poisoned
 #print axioms C25.encode_limit
 #print axioms C25.spec_enc_model
+#print axioms C25.encode_reject_leaves_buffer
+#print axioms C25.encodeSeq_eq
+#print axioms C25.decode_stream_of_accepted
+#print axioms C25.decs_model
 #print axioms C25.spec_feed_model
